@@ -53,13 +53,13 @@ def joinStr (sep : Str) : List Str → Str
 
 def typeName (v : Val) : Str :=
   match v with
-  | .num _ => "_সংখ্যা".toList
-  | .bool _ => "_বুলিয়ান".toList
-  | .str _ => "_স্ট্রিং".toList
-  | .list _ => "_লিস্ট".toList
-  | .record _ => "_রেকর্ড".toList
-  | .func _ _ => "_ফাং".toList
-  | .nil => "_শূন্য".toList
+  | .num _ => W.tyNum
+  | .bool _ => W.tyBool
+  | .str _ => W.tyString
+  | .list _ => W.tyList
+  | .record _ => W.tyRecord
+  | .func _ _ => W.tyFunc
+  | .nil => W.tyNil
 
 /-- `_স্ট্রিং(n)` text: `n.to_string()` with ASCII digits replaced -/
 def numToBnString (n : Bits) : Str := (Num.display n).map enToBn
